@@ -371,7 +371,7 @@ class Padding(WidgetDecoration[WrappedWidget], typing.Generic[WrappedWidget]):
             maxcol = self._width_amount + self.left + self.right
         else:
             maxcol = (
-                max(self._original_widget.pack((), focus=focus)[0] * 100 // self._width_amount, self.min_width or 1)
+                max(int(self._original_widget.pack((), focus=focus)[0] * 100 / self._width_amount + 0.5), self.min_width or 1)
                 + self.left
                 + self.right
             )
